@@ -77,10 +77,14 @@ class CGWorld(World):
         k["A_ret"] = rng.choice(["fresh", "fresh", "fresh", "reuse", "noncontig"])
         k["P_ret"] = rng.choice(["fresh", "fresh", "fresh", "reuse", "noncontig"])
         k["bkind"] = rng.choice(["random", "random", "random", "zero", "eigvec"])
+        k["interfere"] = rng.random() < 0.15
+        k["x_narrow"] = rng.random() < 0.06
         k["x0kind"] = rng.choice(["zero", "zero", "random", "random", "exact"])
         cplx = k["complex"]
         dt = {("double", False): "float64", ("double", True): "complex128",
               ("single", False): "float32", ("single", True): "complex64"}[(k["prec"], cplx)]
+        if k["prec"] == "single":
+            k["x_narrow"] = False
         if k["prec"] == "single":
             # single precision: keep CG in its convergent regime (cond <= ~1e2, no dense preconditioner)
             if k["Pkind"] in ("hpd", "inverse"):
@@ -210,6 +214,12 @@ class CGWorld(World):
         Ad = (Ad + Ad.conj().T) / 2
         b = codec.dec(plan["b"])
         x_caller = codec.dec(plan["x0"])
+        narrow = bool(k.get("x_narrow")) and prec == "double"
+        if narrow:
+            # the caller's array is narrower than the data: legal (in-place updates round
+            # to the caller's precision); only where the solution is written is judged
+            x_caller = x_caller.astype(np.complex64 if np.iscomplexobj(x_caller) else np.float32)
+            stats["buggify.x_narrower_than_b"] += 1
         x0 = x_caller.copy()
         Pd = None
         if plan.get("P") is not None:
@@ -246,7 +256,7 @@ class CGWorld(World):
             A_cb = a_fn
             Aproxy = None
         else:
-            Aproxy = common.Proxy("A", a_fn, k.get("A_ret", "fresh"), stats)
+            Aproxy = common.Proxy("A", a_fn, k.get("A_ret", "fresh"), stats, interfere=bool(k.get("interfere")))
             A_cb = Aproxy
 
         # ---- P callback
@@ -260,7 +270,7 @@ class CGWorld(World):
             else:
                 def p_fn(v, Pm=Pm):
                     return (Pm @ v.reshape(n)).reshape(v.shape)
-            P_cb = common.Proxy("P", p_fn, k.get("P_ret", "fresh"), stats)
+            P_cb = common.Proxy("P", p_fn, k.get("P_ret", "fresh"), stats, interfere=bool(k.get("interfere")))
 
         # ---- fault plan on the A seam
         fstate = {"active": False, "breakdown_expected": False, "first_fault_call": None}
@@ -362,6 +372,13 @@ class CGWorld(World):
             if badl:
                 raise Violation("ledger", "ConjugateGradient.update", step, {"changed": badl, "k": kk})
             xk = x_caller.astype(np.complex128).ravel()
+            if narrow:
+                if kk == 1 and e0 > 1e-3 * nx and codec.bytes_digest(x_caller) == codec.bytes_digest(x0) \
+                        and not alg.not_positive_definite and not fstate["active"]:
+                    raise Violation("solution_not_in_callers_array", "ConjugateGradient.update", step,
+                                    {"k": kk, "why": "caller's (narrower) array unchanged after the first update"})
+                trace.append({"a": "U", "k": kk, "narrow": True})
+                return
             if kk > healthy and not st["broken"]:
                 # floating-point CG itself is past its meaningful regime on this
                 # instance (see `healthy` above): nothing is judged from here on
@@ -483,7 +500,8 @@ class CGWorld(World):
         res.sim_time = float(st["k"])
         res.fingerprint = codec.json_digest([
             k["klass"], prec, bool(k["complex"]), n, k["family"], k["Aform"], k["Pkind"], k.get("Pform"),
-            k["shape"], k["bkind"], k["x0kind"], k.get("A_ret"), k.get("P_ret"), plan["max_iter"],
+            k["shape"], k["bkind"], k["x0kind"], k.get("A_ret"), k.get("P_ret"), bool(k.get("interfere")),
+            bool(k.get("x_narrow")), plan["max_iter"],
             plan["tol"] > 0, [f["kind"] for f in plan.get("faults", [])], common.compress_actions(acts),
         ])
         if Aproxy is not None:
@@ -502,6 +520,8 @@ class CGWorld(World):
             return p
         if k.get("A_ret") != "fresh":
             yield mod(A_ret="fresh")
+        if k.get("interfere"):
+            yield mod(interfere=False)
         if k.get("P_ret") != "fresh":
             yield mod(P_ret="fresh")
         if plan.get("P") is not None:
